@@ -146,6 +146,12 @@ func (p parser) transform(n *yaml.Node) (Node, error) {
 		return nil, fmt.Errorf("empty YAML file given")
 	case yaml.MappingNode:
 		t = TypeIDMap
+		// Only scalar (string) keys are supported by the simplified node representation.
+		for i := 0; i+1 < len(n.Content); i += 2 {
+			if n.Content[i].Kind != yaml.ScalarNode {
+				return nil, fmt.Errorf("unsupported non-scalar map key on line %d", n.Content[i].Line)
+			}
+		}
 	case yaml.SequenceNode:
 		t = TypeIDSequence
 	case yaml.ScalarNode:
